@@ -8,16 +8,22 @@ package cloudblob
 import (
 	"bytes"
 	"context"
+	"encoding/json"
 	"fmt"
+	"net/http"
 	"net/url"
 	"os"
 	"strings"
+	"sync"
 	"testing"
+	"time"
 
 	"github.com/johannesboyne/gofakes3"
 	"github.com/johannesboyne/gofakes3/backend/s3mem"
 	"github.com/rs/zerolog"
 
+	"github.com/dadrus/heimdall/internal/config"
+	rconfig "github.com/dadrus/heimdall/internal/rules/config"
 	"github.com/dadrus/heimdall/internal/x/verifc18"
 )
 
@@ -184,3 +190,149 @@ func (a *blobAdapter) Provider(run *verifc18.Run, mode string) error {
 }
 
 func TestVerifC18(t *testing.T) { verifc18.RunAll(t, &blobAdapter{}) }
+
+// schedProcessor counts what the provider's scheduled polls hand over and whether two of them do so
+// at the same time.
+type schedProcessor struct {
+	mu       sync.Mutex
+	inflight int
+	maxIn    int
+	created  map[string]int
+}
+
+func (p *schedProcessor) enter(src string, create bool) {
+	p.mu.Lock()
+	p.inflight++
+
+	if p.inflight > p.maxIn {
+		p.maxIn = p.inflight
+	}
+
+	if create {
+		p.created[src]++
+	}
+	p.mu.Unlock()
+
+	time.Sleep(20 * time.Millisecond)
+
+	p.mu.Lock()
+	p.inflight--
+	p.mu.Unlock()
+}
+
+func (p *schedProcessor) OnCreated(rs *rconfig.RuleSet) error { p.enter(rs.Source, true); return nil }
+func (p *schedProcessor) OnUpdated(rs *rconfig.RuleSet) error { p.enter(rs.Source, false); return nil }
+func (p *schedProcessor) OnDeleted(rs *rconfig.RuleSet) error { p.enter(rs.Source, false); return nil }
+
+// TestVerifC18Scheduler runs the provider as configured - with its own scheduler - against a bucket
+// whose poll takes longer than watch_interval, and records whether polls of the one bucket overlapped
+// and how often each (unchanged) rule set was created.
+func TestVerifC18Scheduler(t *testing.T) {
+	out := os.Getenv("VERIF_C18_SCHED")
+	if out == "" {
+		t.Skip("VERIF_C18_SCHED not set")
+	}
+
+	os.Setenv("AWS_ACCESS_KEY_ID", "test")
+	os.Setenv("AWS_SECRET_ACCESS_KEY", "test")
+	os.Setenv("AWS_MAX_ATTEMPTS", "1")
+
+	backend := s3mem.New()
+	if err := backend.CreateBucket(bucketName); err != nil {
+		t.Fatalf("INFRA: %v", err)
+	}
+
+	const sets = 3
+
+	for i := 0; i < sets; i++ {
+		body := fmt.Sprintf("version: \"1alpha4\"\nname: sched%d\nrules:\n- id: sched-%d\n  match:\n    routes:\n    - path: /sched/%d\n"+
+			"  execute:\n  - authenticator: anon\n", i, i, i)
+		if _, err := backend.PutObject(bucketName, fmt.Sprintf("set%d.yaml", i), map[string]string{"Content-Type": "application/yaml"},
+			strings.NewReader(body), int64(len(body))); err != nil {
+			t.Fatalf("INFRA: %v", err)
+		}
+	}
+
+	var (
+		mu       sync.Mutex
+		active   int
+		maxPolls int
+		lists    int
+	)
+
+	inner := gofakes3.New(backend).Server()
+	slow := http.HandlerFunc(func(w http.ResponseWriter, r *http.Request) {
+		list := r.Method == http.MethodGet && strings.Trim(r.URL.Path, "/") == bucketName
+
+		if list { // one listing per poll: its duration stands for the poll
+			mu.Lock()
+			active++
+			lists++
+
+			if active > maxPolls {
+				maxPolls = active
+			}
+			mu.Unlock()
+
+			time.Sleep(400 * time.Millisecond)
+		}
+
+		inner.ServeHTTP(w, r)
+
+		if list {
+			time.Sleep(200 * time.Millisecond)
+
+			mu.Lock()
+			active--
+			mu.Unlock()
+		}
+	})
+
+	srv, err := verifc18.NewFlakyServer(slow)
+	if err != nil {
+		t.Fatalf("INFRA: %v", err)
+	}
+	defer srv.Down()
+
+	proc := &schedProcessor{created: map[string]int{}}
+	conf := &config.Configuration{Providers: config.RuleProviders{CloudBlob: map[string]any{
+		"watch_interval": "100ms",
+		"buckets":        []any{map[string]any{"url": "s3://" + bucketName + "?endpoint=http://" + srv.Addr + "&region=eu-central-1"}},
+	}}}
+
+	prov, err := newProvider(conf, proc, zerolog.Nop())
+	if err != nil {
+		t.Fatalf("INFRA: %v", err)
+	}
+
+	if err := prov.Start(context.Background()); err != nil {
+		t.Fatalf("INFRA: %v", err)
+	}
+
+	time.Sleep(3 * time.Second)
+
+	_ = prov.Stop(context.Background())
+
+	mu.Lock()
+	polls, overlap := lists, maxPolls
+	mu.Unlock()
+
+	proc.mu.Lock()
+	most := 0
+	for _, n := range proc.created {
+		if n > most {
+			most = n
+		}
+	}
+	nsrc, maxIn := len(proc.created), proc.maxIn
+	proc.mu.Unlock()
+
+	line, _ := json.Marshal(map[string]any{
+		"ev": "sched", "id": "cloudblob-slow-poll", "prov": "cloudblob", "interval_ms": 100, "poll_ms": 600, "polls": polls,
+		"max_polls_at_once": overlap, "max_callbacks_at_once": maxIn, "sources": nsrc, "sets": sets, "most_creations": most,
+	})
+
+	if err := os.WriteFile(out, append(line, '\n'), 0o600); err != nil {
+		t.Fatalf("INFRA: %v", err)
+	}
+}
